@@ -80,11 +80,15 @@ def ensure_generated():
     tr = R.table().tr
     d = _scratch()
     os.makedirs(d, exist_ok=True)
-    src = TR.emit_coq(tr)
-    src += """
-Definition run : obs -> obs := run_tbl table.
+    # GenRdtypes.v: the table and the model's `run` (must compile even when a theorem fails, so
+    # that the correspondence still pinpoints the disagreeing type); GenProofs.v: the theorems
+    src = TR.emit_coq(tr) + "\nDefinition run : obs -> obs := run_tbl table.\n"
+    proofs = r"""From DV Require Import Base.Prelude Model.NameM Model.SchemaM Proofs.SchemaCodec Proofs.SchemaTable Proofs.SchemaOrigin.
+From Scratch Require Import GenRdtypes.
+Open Scope Z_scope.
 Theorem gen_table_ok : forallb entry_ok table = true.
 Proof. vm_compute. reflexivity. Qed.
+(* the only type whose reader and writer disagree about the origin is TSIG (known finding) *)
 Theorem gen_table_origin_exceptions :
   map (fun e => (e_class e, e_type e)) (filter (fun e => negb (entry_origin_ok e)) table) = [(255, 250)].
 Proof. vm_compute. reflexivity. Qed.
@@ -97,29 +101,42 @@ Proof. intros. eapply table_roundtrip_none; eauto. exact gen_table_ok. Qed.
 Theorem gen_table_fixed_point : forall e w r ck wire cur rdlen vs,
   In e table -> e_codec e = CSchema w r ck ->
   decode_rdata None (map fst r) ck wire cur rdlen = Ok vs ->
-  exists w', encode_rdata None (map fst w) ck vs = Ok w' /\\
-             decode_rdata None (map fst r) ck w' 0 (length w') = Ok vs /\\
+  exists w', encode_rdata None (map fst w) ck vs = Ok w' /\
+             decode_rdata None (map fst r) ck w' 0 (length w') = Ok vs /\
              (forall vs', decode_rdata None (map fst r) ck w' 0 (length w') = Ok vs' ->
                           encode_rdata None (map fst w) ck vs' = Ok w').
 Proof. intros. eapply table_fixed_point_none; eauto. exact gen_table_ok. Qed.
+Theorem gen_table_roundtrip_origin : forall o e w r ck vs b A P,
+  In e table -> entry_origin_ok e = true -> e_codec e = CSchema w r ck -> is_absolute o = true ->
+  nok_fields (nok_origin o) (map fst w) vs ->
+  encode_rdata (Some o) (map fst w) ck vs = Ok b ->
+  decode_rdata (Some o) (map fst r) ck (A ++ b ++ P) (length A) (length b) = Ok vs.
+Proof. intros. eapply table_roundtrip_origin_thm; eauto. exact gen_table_ok. Qed.
 Print Assumptions gen_table_roundtrip.
 Print Assumptions gen_table_fixed_point.
+Print Assumptions gen_table_roundtrip_origin.
 """
     path = os.path.join(d, "GenRdtypes.v")
     with open(path, "w") as f:
         f.write(src)
-    lib.coq_make(["Proofs/SchemaTable.vo"])
-    rc, out, dt = lib.run_cmd(["coqc", "-Q", lib.COQ, "DV", "-Q", d, "Scratch", path], timeout=900)
-    thms = ["gen_table_ok", "gen_table_origin_exceptions", "gen_table_roundtrip", "gen_table_fixed_point", "translation_closed"]
+    ppath = os.path.join(d, "GenProofs.v")
+    with open(ppath, "w") as f:
+        f.write(proofs)
+    lib.coq_make(["Proofs/SchemaOrigin.vo"])
+    rc0, out0, _ = lib.run_cmd(["coqc", "-Q", lib.COQ, "DV", "-Q", d, "Scratch", path], timeout=900)
+    rc, out, dt = (1, "table file did not compile:\n" + out0, 0) if rc0 != 0 else lib.run_cmd(["coqc", "-Q", lib.COQ, "DV", "-Q", d, "Scratch", ppath], timeout=900)
+    thms = ["gen_table_ok", "gen_table_origin_exceptions", "gen_table_roundtrip", "gen_table_fixed_point", "gen_table_roundtrip_origin", "translation_closed"]
     ok = rc == 0 and tr["ok"]
-    discharged = (4 if rc == 0 else 0) + (1 if tr["ok"] else 0)
+    discharged = (5 if rc == 0 else 0) + (1 if tr["ok"] else 0)
+    if rc == 0 and "Closed under the global context" not in out:
+        ok = False
     log = ""
     if not tr["ok"]:
         log += "translator failed closed: " + "; ".join(tr["errors"]) + "\n"
     if rc != 0:
         log += "generated table does not check:\n" + out[-2500:]
     _gen_state.update(
-        ok=ok, obligations=5, discharged=discharged, theorems=thms, log=log, compiled=(rc == 0),
+        ok=ok, obligations=6, discharged=discharged, theorems=thms, log=log, compiled=(rc0 == 0),
         info={"types_schema": sum(1 for t in tr["types"] if t["kind"] == "schema"),
               "types_hand": sorted(t["name"] for t in tr["types"] if t["kind"] == "hand"),
               "types_error": sorted(t["name"] for t in tr["types"] if t["kind"] == "error"),
